@@ -38,8 +38,23 @@ CFG = {
             "the depth before every step), accepted values as above; the first failing step is named (`step=i`). After the case the harness leaves "
             "min(k0, depth) times, so leave_obj's assert is never tripped by the harness itself. The theorem depth_restored is stated for an ARBITRARY context "
             "(cur <= max), i.e. it covers every non-zero starting depth and, by iteration, every sequence; accepted_depth_le reads cur + depth <= max. "
-            "non-trivial = input nesting >= 2 (distinct by case hash), width / run length >= 1000; `at`: k0 >= 1 and the inner case non-trivial; `seq`: >= 2 "
-            "steps, one of them non-trivial",
+            "INDIRECT OBJECTS (`ind <d> <form> <num> <case>`, alone, under `at` and as `seq` steps): the case's input as the BODY of `<num> 0 obj <body> "
+            "endobj`, parsed by parse_pdf_indirect_obj on the same kind of context (the model: Indirect.parseIndirect, which threads cur / max AND the "
+            "definitions). Forms: p plain; s the body as a value inside a stream dictionary followed by stream .. endstream (one level more); failures "
+            "past the `obj` keyword: e `endobj` misspelt, l stream without /Length, t stream content shorter than /Length, a duplicate number (in a `seq`), "
+            "a bound / syntax error inside the body; k keyword `obj` misspelt (failure before the body). Every d in 0..64 x k0 in {0, 1, 2, d/2, d-1, d} x 3 "
+            "opener kinds x body nesting in {rem-1, rem, rem+1, rem+2} (form p; form s and the failure forms with one opener kind in quick, the stream "
+            "dictionary counted), a syntax error at depth in the body (forms p, s); sequences of 3-4 steps mixing indirect and plain parses on ONE context "
+            "(indirect / plain rejection / indirect; a rejected object is not registered; duplicate then plain steps at the bound; t, l, s rejections then "
+            "plain; 10^3 unclosed openers inside an object); random bodies / truncations in random forms from random starting depths and random mixed "
+            "sequences (n/2 pairs; thorough n/3); 10^3..10^5 (thorough 10^6) unclosed openers inside an object; width profiles (300, some 10^3) and all 20 "
+            "length profiles (10^3) as bodies at the bound and one beyond, plain and inside a stream dictionary (the `ind` families stay below the model's "
+            "work budget: the model always runs). Output: result, span, cursor (also on failure), depth delta, number, generation, the object's span and "
+            "value (a stream: its dictionary, content start and size). Expected (oracle, from the description and the layout of the text alone): depth "
+            "after = depth before for EVERY outcome; accepted iff the form is p or s, the body is a valid object, the number is not yet defined on this "
+            "context, and k0 + nesting(body) (+1 for the stream dictionary) <= d; accepted width / length profiles: the exact output line. "
+            "non-trivial = input nesting >= 2 (distinct by case hash), width / run length >= 1000; `ind`: the body's case non-trivial; `at`: k0 >= 1 and the "
+            "inner case non-trivial; `seq`: >= 2 steps, one of them non-trivial",
     "trusted_base": COMMON_TB + ["modelled, not verified: ParseBuffer primitives as list functions; the real machine stack"],
     "assumptions": ["depth of a value = number of nested parse_pdf_obj activations needed to parse it (scalar or empty container = 1)"],
 }
@@ -51,5 +66,6 @@ LEVEL = {
             "acceptance of every legally spelled object whose spelling depth is within the bound is a theorem too (within_bound_accepted, from C02's spell_parse); "
             "rejection beyond the bound is accepted_depth_le (contrapositive) and is also exercised by the oracle on generated nesting profiles; "
             "model tied to parse_pdf_obj by the correspondence run (value, span, cursor, depth delta), from a fresh context, from contexts that are "
-            "already k0 levels deep, and over sequences of parses on one context.",
+            "already k0 levels deep, and over sequences of parses on one context; the same through parse_pdf_indirect_obj (objects and stream objects "
+            "around the bodies, every failure past the `obj` keyword), alone and mixed with plain parses.",
 }
